@@ -136,7 +136,30 @@ fn needle_polygon(rng: &mut Rng) -> Polygon<f64> {
 }
 
 /// collection of mixed dimension, members shifted apart
+/// two real areal members with a degenerate value of an areal type (zero-width Rect, flat Triangle) between them, where the
+/// centroid of the collection falls; sometimes nested one level
+fn degenerate_between(rng: &mut Rng) -> Geometry<f64> {
+    let (ox, oy) = (rng.range(-3, 3) as f64, rng.range(-3, 3) as f64);
+    let c = |x: f64, y: f64| Coord { x: x + ox, y: y + oy };
+    let sq = |x0: f64| Polygon::new(LineString(vec![c(x0, 0.0), c(x0 + 2.0, 0.0), c(x0 + 2.0, 2.0), c(x0, 2.0), c(x0, 0.0)]), vec![]);
+    let left = match rng.below(3) { 0 => Geometry::Rect(Rect::new(c(0.0, 0.0), c(2.0, 2.0))), 1 => Geometry::Triangle(Triangle(c(0.0, 0.0), c(2.0, 0.0), c(0.0, 2.0))), _ => Geometry::Polygon(sq(0.0)) };
+    let right = if rng.chance(1, 2) { Geometry::Polygon(sq(10.0)) } else { Geometry::MultiPolygon(MultiPolygon(vec![sq(10.0)])) };
+    let mid = match rng.below(4) {
+        0 => Geometry::Rect(Rect::new(c(6.0, 0.0), c(6.0, 2.0))),
+        1 => Geometry::Rect(Rect::new(c(5.0, 1.0), c(7.0, 1.0))),
+        2 => Geometry::Triangle(Triangle(c(6.0, 0.0), c(6.0, 1.0), c(6.0, 2.0))),
+        _ => Geometry::Triangle(Triangle(c(5.0, 0.0), c(6.0, 1.0), c(7.0, 2.0))),
+    };
+    let mid = if rng.chance(1, 3) { Geometry::GeometryCollection(GeometryCollection(vec![mid])) } else { mid };
+    let mut v = vec![left, mid, right];
+    rng.shuffle(&mut v);
+    Geometry::GeometryCollection(GeometryCollection(v))
+}
+
 fn mixed_collection(rng: &mut Rng) -> Geometry<f64> {
+    if rng.chance(1, 6) {
+        return degenerate_between(rng);
+    }
     let n = rng.range(1, 4);
     let mut v = vec![];
     for i in 0..n {
